@@ -23,7 +23,8 @@ def gen(rng):
     for pid in rng.sample(["VPA001", "ZZZ999", "AAA000", "MDM500"], rng.randint(1, 3)):
         specs.append(dict(id=pid, start=rng.random() < .6, token=rng.random() < .6, line=rng.random() < .7, done=rng.random() < .6,
                           resets=rng.random() < .5, doneReport=rng.random() < .3, lineTrig=rng.choice(["TRIG", ""]),
-                          tokTrig=rng.choice(["", "TRIG"]), boom="", enabled=rng.random() < .8))
+                          tokTrig=rng.choice(["", "TRIG"]), boom="", enabled=rng.random() < .7))
+        specs[-1]["how"] = rng.choice(sorted(E.HOWS_ON if specs[-1]["enabled"] else E.HOWS_OFF))
     texts = [rng.choice(DOCS) for _ in range(rng.randint(1, 3))]
     return specs, texts, rng.random() < .5
 
@@ -57,6 +58,11 @@ def lifecycle_oracle(specs, texts, cont, real):
 
 ALL = dict(start=True, token=True, line=True, done=True, resets=True, doneReport=False, lineTrig="TRIG", tokTrig="", boom="")
 CORPUS = [([dict(ALL, id="ZZZ999"), dict(ALL, id="AAA000", enabled=False)], DOCS[:6], False),
+          # "a disabled rule receives nothing" whichever identifiers -d / -e use (disable beats enable across identifiers)
+          ([dict(ALL, id="ZZZ999", enabled=False, how="d-alias-e-id"), dict(ALL, id="AAA000", enabled=False, how="d-id-e-name"),
+            dict(ALL, id="MDM500", enabled=True, how="e-alias")], DOCS[6:9], False),
+          ([dict(ALL, id="VPA001", enabled=False, how="d-name-e-alias"), dict(ALL, id="AAA000", enabled=False, how="d-name-e-id"),
+            dict(ALL, id="ZZZ999", enabled=True, how="e-name")], DOCS[9:12], True),
           ([dict(ALL, id="VPA001", start=False, token=False)], DOCS[6:12], True),
           ([dict(ALL, id="MDM500", line=False, done=False), dict(ALL, id="AAA000", start=False)], DOCS[12:], False)]
 
